@@ -31,6 +31,9 @@ ASSUMPTIONS = ["a qualified name that has more than one valid decomposition unde
 TIMEOUT = 600
 ALPHA = "abcXY019._-+=:#@"
 IDENT = re.compile(r"^[A-Za-z_][A-Za-z0-9_]*(\.[A-Za-z_][A-Za-z0-9_]*)*$")
+# how the pinned caller reaches the callee: by name; as a function-valued argument of another pinned function
+# (bare, or nested in a list / dictionary argument); through a partial application; through a batch
+SHAPES = ["direct", "fnarg", "fnarg_nested", "partial", "batch"]
 EVOLUTIONS = ["unchanged", "edited", "removed", "renamed", "plain", "reclustered", "bumped", "edited_twice"]
 
 
@@ -41,12 +44,14 @@ def cases(tier, seed):
     for i in range(0, n_store, 10):
         yield {"kind": "store", "seed": seed, "idx": i, "count": 10}
     k = 0
-    for rep in range(n_evo):
-        for evo in EVOLUTIONS:
-            for cluster in (None, "named.cl-1"):
-                for cache in (False, True):
-                    yield {"kind": "evolve", "seed": seed, "idx": k, "evolution": evo, "cluster": cluster, "cache": cache}
-                    k += 1
+    for rep in range(1 if tier == "quick" else 4):
+        for shape in SHAPES:
+            for evo in EVOLUTIONS:
+                for cluster in (None, "named.cl-1"):
+                    for cache in (False, True):
+                        yield {"kind": "evolve", "seed": seed, "idx": k, "evolution": evo, "cluster": cluster, "cache": cache,
+                               "shape": shape}
+                        k += 1
 
 
 # ---------------------------------------------------------------- names
@@ -243,7 +248,7 @@ def run_store(case, out, fail):
 
 
 # ---------------------------------------------------------------- evolutions
-def evo_module(cluster, stage, evolution):
+def evo_module(cluster, stage, evolution, shape="direct"):
     callee_v1 = '@m.memento_function(cluster=CL%s)\ndef callee(x):\n    REC.hit("callee", x)\n    return x + 1\n'
     ver1 = ', version="1"' if evolution == "bumped" else ""
     if stage == 0 or evolution == "unchanged":
@@ -262,9 +267,16 @@ def evo_module(cluster, stage, evolution):
         callee = callee_v1.replace("cluster=CL%s", 'cluster="elsewhere"%s') % ""
     elif evolution == "bumped":
         callee = callee_v1 % ', version="2"'
-    return ("import twosigma.memento as m\nfrom vf.recorder import REC\nCL = %r\n\n%s\n"
+    cname = "callee_v2" if (evolution == "renamed" and stage > 0) else "callee"
+    use = {"direct": "%s(x)", "fnarg": "apply(%s, x)", "fnarg_nested": "apply({\"fns\": [%s], \"n\": 1}, x)",
+           "partial": "%s.partial(x)()", "batch": "%s.call_batch([{\"x\": x}])[0]"}[shape] % cname
+    apply_src = ""
+    if shape in ("fnarg", "fnarg_nested"):
+        apply_src = ("@m.memento_function(cluster=CL, version=\"pinned\")\ndef apply(f, x):\n    REC.hit(\"apply\", x)\n"
+                     "    return %s(x)\n\n" % ("f" if shape == "fnarg" else "f[\"fns\"][0]"))
+    return ("import twosigma.memento as m\nfrom vf.recorder import REC\nCL = %r\n\n%s\n%s"
             "@m.memento_function(cluster=CL, version=\"pinned\")\ndef caller(x):\n    REC.hit(\"caller\", x)\n"
-            "    return [x, %s(x)]\n" % (cluster, callee, "callee_v2" if (evolution == "renamed" and stage > 0) else "callee"))
+            "    return [x, %s]\n" % (cluster, callee, apply_src, use))
 
 
 def evo_child(arg):
@@ -306,6 +318,30 @@ def evo_child(arg):
     step("list_mementos", lambda: len(mod.caller.list_mementos()))
     step("list_functions", lambda: sorted(r.qualified_name for r in m.list_memoized_functions(cluster)))
     step("trace", lambda: (mem.trace() if mem is not None else None))
+    if hasattr(mod, "apply"):
+        def listed_apply():
+            from twosigma.memento.reference import FunctionReference
+
+            found = []
+
+            def walk(v):
+                if callable(getattr(v, "fn_reference", None)):
+                    v = v.fn_reference()  # arguments come back as (external) memento functions
+                if isinstance(v, FunctionReference):
+                    found.append([v.qualified_name, bool(v.external)])
+                elif isinstance(v, (list, tuple)):
+                    [walk(x) for x in v]
+                elif isinstance(v, dict):
+                    [walk(x) for x in v.values()]
+
+            ms = mod.apply.list_mementos()
+            for mm_ in ms:
+                fa = mm_.invocation_metadata.fn_reference_with_args
+                walk(list(fa.args))
+                walk(dict(fa.kwargs))
+            return {"n": len(ms), "fn_args": found}
+
+        step("apply_list_mementos", listed_apply)
     step("second_call", lambda: [mod.caller(1), REC.names()])
     if hasattr(mod, "callee") and hasattr(mod.callee, "fn_reference"):
         step("callee_version", lambda: mod.callee.fn_reference().qualified_name)
@@ -314,7 +350,8 @@ def evo_child(arg):
 
 def run_evolve(case, out, fail):
     evolution, cluster = case["evolution"], case["cluster"]
-    label = "evolution %s, %s cluster, cache=%s" % (evolution, "default" if cluster is None else "named", case["cache"])
+    label = "evolution %s, callee reached %s, %s cluster, cache=%s" % (
+        evolution, case.get("shape", "direct"), "default" if cluster is None else "named", case["cache"])
     with env.Scratch() as sc:
         modname = "vpevo_%d_%d" % (case["seed"], case["idx"])
         stages = 3 if evolution == "edited_twice" else 2
@@ -323,14 +360,14 @@ def run_evolve(case, out, fail):
             src = sc.path("src%d" % stage)
             os.makedirs(src)
             with open(os.path.join(src, modname + ".py"), "w") as f:
-                f.write(evo_module(cluster, stage, evolution))
+                f.write(evo_module(cluster, stage, evolution, case.get("shape", "direct")))
             try:
                 results.append(procs.in_child(evo_child, {"root": sc.root, "src": src, "mod": modname, "cluster": cluster,
                                                          "cache": case["cache"]}))
             except procs.ChildFailed as e:
                 return fail("harness: evolution child failed", "%s stage %d: %s" % (label, stage, e))
         first = {s[0]: s for s in results[0]["steps"]}
-        if first["call"][1] != "ok" or first["call"][2][0] != [1, 2] or first["call"][2][1] != ["caller", "callee"]:
+        if first["call"][1] != "ok" or first["call"][2][0] != [1, 2] or first["call"][2][1] not in (["caller", "callee"], ["caller", "apply", "callee"]):
             return fail("harness: first process did not compute the pair", "%s: %s" % (label, first["call"]))
         old_callee = first.get("callee_version", [None, None, None])[2]
         for stage, res in enumerate(results[1:], 1):
@@ -358,11 +395,23 @@ def run_evolve(case, out, fail):
                                 fail("a reference to a version that no longer exists is not reported as external"
                                      if gone else "a reference to an existing version is reported as external",
                                      "%s stage %d: %s external=%s" % (label, stage, qn, external))
+            al = steps.get("apply_list_mementos")
+            if al is not None and al[1] == "ok":
+                if al[2]["n"] != 1:
+                    fail("stored entry is not listed after the code base evolved",
+                         "%s stage %d: entry of the function that received the callee as an argument: %s" % (label, stage, al[2]))
+                for qn, external in al[2]["fn_args"]:
+                    out["obs"]["references_to_old_versions_checked"] += 1
+                    out["obs"]["function_valued_arguments_read_back"] += 1
+                    if external != (evolution != "unchanged"):
+                        fail("a reference to a version that no longer exists is not reported as external"
+                             if evolution != "unchanged" else "a reference to an existing version is reported as external",
+                             "%s stage %d: function-valued argument %s external=%s" % (label, stage, qn, external))
             if steps["list_mementos"][1] == "ok" and steps["list_mementos"][2] != 1:
                 fail("stored entry is not listed after the code base evolved", "%s stage %d: %s" % (label, stage, steps["list_mementos"][2]))
             if steps["list_functions"][1] == "ok" and not any("caller#pinned" in q for q in steps["list_functions"][2]):
                 fail("stored function is not listed after the code base evolved", "%s stage %d: %s" % (label, stage, steps["list_functions"][2]))
-        out["nontrivial"].append("%s|%s" % (evolution, "default" if cluster is None else "named"))
+        out["nontrivial"].append("%s|%s|%s" % (evolution, case.get("shape", "direct"), "default" if cluster is None else "named"))
         out["sample"] = {"evolution": evolution, "cluster": cluster, "second_process": results[1]["steps"][:2]}
 
 
@@ -381,4 +430,4 @@ def run_case(case):
 def conclude(agg):
     return core.first(core.need(agg, "names_parsed", 1500), core.need(agg, "names_stored_and_looked_up", 100),
                       core.need(agg, "evolved_processes_observed", 40), core.need(agg, "references_to_old_versions_checked", 50),
-                      core.need(agg, "ambiguous_names_seen", 1)), {}
+                      core.need(agg, "function_valued_arguments_read_back", 20), core.need(agg, "ambiguous_names_seen", 1)), {}
